@@ -28,7 +28,8 @@ Inductive ev :=
 | EDeref             (* an access that panics when the embedded pointer / receiver pointer is nil *)
 | ELock | EUnlock    (* calls of stack.lock / stack.unlock *)
 | EMLock | EMUnlock  (* sync.Mutex.Lock / Unlock *)
-| EExt.              (* a call leaving the package or a user closure *)
+| EExt               (* a call leaving the package or a user closure *)
+| ERes.              (* entry-point bodies only: a result may become non-zero here *)
 
 Inductive gcond :=
 | CInit           (* r.IsInit() *)
